@@ -121,12 +121,17 @@ def Hist.ghostAt (h : Hist) (n : Nat) : Option Spec.Stored :=
         | "set", .ent _ _ =>
           let cause := ((h.calls e.n e.stream).getLast?).bind fun c =>
             if c.outcome == "resp" then (h.reply e.n c.k).map fun rp => (c, rp) else none
+          -- the entry a 304 is about is the one this stream READ (its key may differ from the key written: a 304
+          -- that changes the Vary field makes the cache store the merged response anew under another identifier)
+          let srcKey := ((h.stores e.n e.stream).filter (·.idx < e.idx)).reverse.findSome? (fun s => match s.op, s.result, s.val with
+            | "get", "ok", .ent _ true => some s.key
+            | _, _, _ => none) |>.getD e.key
           let v : Option Spec.Stored := match cause with
             | none => none
             | some (c, rp) =>
               if rp.kind != "resp" then none
               else if rp.resp.status = 304 then
-                ((alookup e.key m).join).map fun old =>
+                ((alookup srcKey m).join).map fun old =>
                   -- not a validation result, or no-store on either side: nothing may change
                   if (match h.reqs.find? (·.n = e.n) with
                       | some ri => (freshenForbidden ri.req.header c.hdr old.header rp.resp).isSome
